@@ -1117,6 +1117,7 @@ class Evaluator:
                 v = self.ev(f.node["body"], env, depth)
             except _Return as r:
                 v = r.v
+            v = self.run_future(v, depth)   # `|x| async move {..}`: futures are evaluated eagerly (no interleavings modelled)
             # propagate captured mutations back (closures share ids with the parent)
             for kk, vv in env.items():
                 if kk in f.env:
@@ -1178,6 +1179,9 @@ class Evaluator:
         return self.opaque_call(fn, args, node, name)
 
     def opaque_call(self, fn, args, node, name):
+        # an async block handed to an opaque consumer (futures.push(async move {..})) is evaluated eagerly: its effects and its
+        # output value are what the consumer eventually observes
+        args = [self.run_future(a, 0) if isinstance(a, Clo) and (a.node.get("ckind") or "").startswith("Coroutine") else a for a in args]
         r = Sym(("call", fn, tuple(term(a) for a in args)))
         self.path.events.append(Event("call", fn, list(args), r, node.get("sp"), name=name))
         return r
